@@ -80,7 +80,7 @@ type Msg struct {
 
 type Fault struct {
 	Job   int    // n-th job started (0-based, in start order)
-	Where string // before | mid | after | abort (no retry: the request ends) | exec (real worker only)
+	Where string // before | mid | drain (the block source ends cleanly half-way) | after | abort (no retry: the request ends) | exec (real worker only)
 }
 
 type Opts struct {
@@ -268,10 +268,14 @@ func (w *sysWorker) Work(ctx context.Context, unit stage.Unit, startBlock uint64
 				}
 				return work.MsgJobFailed{Unit: unit, Error: fmt.Errorf("request aborted: %w", err)}
 			}
-			if where == "mid" {
+			jctx := ctx
+			if where == "mid" || where == "drain" {
 				failAt = int64(request.StartBlock() + (request.StopBlock()-request.StartBlock())/2)
 			}
-			err := runTier2(ctx, env, request, failAt)
+			if where == "drain" {
+				jctx = withDrain(ctx)
+			}
+			err := runTier2(jctx, env, request, failAt)
 			if err != nil && errors.Is(err, exec.ErrWasmDeterministicExec) {
 				return work.MsgJobFailed{Unit: unit, Error: err} // deterministic: not retried
 			}
@@ -325,7 +329,11 @@ func runTier2T(ctx context.Context, env *runEnv, request *pbssinternal.ProcessRa
 	sf := func(ctx context.Context, h bstream.Handler, startBlockNum int64, stopBlockNum uint64, cursor string, finalBlocksOnly bool, cursorIsTarget bool, logger *zap.Logger, extraOpts ...stream.Option) (service.Streamable, error) {
 		return &feeder{Shutter: shutter.New(), run: func() error {
 			// tier2 only reads final blocks: everything below the hand-off is final
-			return canonFeed(h, uint64(startBlockNum), stopBlockNum, ^uint64(0)>>1, stopBlockNum, failAt)
+			err := canonFeed(h, uint64(startBlockNum), stopBlockNum, ^uint64(0)>>1, stopBlockNum, failAt)
+			if drainKey(ctx) && err != nil && strings.Contains(err.Error(), "transient stream failure") {
+				return nil // "drain": the block source ends CLEANLY before the stop block (a source shut down without error)
+			}
+			return err
 		}}, nil
 	}
 	svc := service.TestNewServiceTier2(false, sf)
@@ -334,6 +342,12 @@ func runTier2T(ctx context.Context, env *runEnv, request *pbssinternal.ProcessRa
 	}
 	return svc.TestProcessRange(ctx, request, func(substreams.ResponseFromAnyTier) error { return nil })
 }
+
+type drainCtxKey struct{}
+
+// withDrain marks a tier-2 job whose block source is to end cleanly (nil, not an error) at the failing block
+func withDrain(ctx context.Context) context.Context { return context.WithValue(ctx, drainCtxKey{}, true) }
+func drainKey(ctx context.Context) bool             { v, _ := ctx.Value(drainCtxKey{}).(bool); return v }
 
 // ---------------------------------------------------------------- Run: one request against the real tier1 service
 
